@@ -109,7 +109,7 @@ def pds_text(rng):
     return ''.join(parts)
 
 
-FAMILIES = ('byte_sweeps', 'length_rewrites', 'hex_bitmap_spellings', 'typed_content_words', 'icc_tails', 'icc_long_form_lengths', 'truncations', 'extensions', 'multipoint')
+FAMILIES = ('byte_sweeps', 'length_rewrites', 'hex_bitmap_spellings', 'typed_content_words', 'icc_tails', 'icc_long_form_lengths', 'short_headers', 'truncations', 'extensions', 'multipoint')
 
 
 def family_iter(ctx, name, data, L, enc, k):
@@ -123,6 +123,8 @@ def family_iter(ctx, name, data, L, enc, k):
         return mutate.hex_bitmap_spellings(data, len(L.bitmap) == 32)
     if name == 'icc_tails':
         return mutate.icc_tails(data, L, msgwork.cfg_of(base(ctx, k)[0]), enc)
+    if name == 'short_headers':
+        return mutate.short_headers(data, len(L.bitmap) == 32)
     if name == 'icc_long_form_lengths':
         return mutate.icc_long_form_lengths(data, L, msgwork.cfg_of(base(ctx, k)[0]), enc)
     if name == 'typed_content_words':
